@@ -1091,6 +1091,25 @@ impl Need {
     }
 }
 
+/// The by-value twin of a grammar: every parser that takes tokens BY REFERENCE (any_ref, select_ref!,
+/// the peek_ref/next_ref custom parser) replaced by its by-value counterpart with the same output.
+pub fn by_value_twin(g: &G) -> G {
+    fn go(g: &mut G) {
+        match g {
+            G::AnyRef => *g = G::Any,
+            G::SelectRef(v) => *g = G::Select(std::mem::take(v)),
+            G::CapApi(0, a) => *g = G::CapApi(2, *a),
+            _ => {}
+        }
+        for c in children_mut(g) {
+            go(c);
+        }
+    }
+    let mut h = g.clone();
+    go(&mut h);
+    h
+}
+
 pub fn needs_caps(g: &G) -> Need {
     Need {
         slice: contains(g, &|x| matches!(x, G::Slice(_) | G::SliceFrom | G::CapApi(1, _))),
